@@ -47,6 +47,7 @@ def units(tier, seed):
         us.append({'kind': 'entries', 'names': names[i:i + CHUNK], 'tier': tier, 'seed': seed})
     for opn in ('lt', 'le', 'gt', 'ge', 'eq', 'ne'):
         us.append({'kind': 'cmp', 'op': opn, 'tier': tier, 'seed': seed})
+        us.append({'kind': 'cmpb', 'op': opn, 'tier': tier, 'seed': seed})
     for opn in sorted(BINOPS):
         for (D, P) in BDPS:
             us.append({'kind': 'bcast', 'op': opn, 'D': D, 'P': P, 'tier': tier, 'seed': seed})
@@ -275,8 +276,52 @@ def run_cmp(u, out):
                                                  'detail': {'got': str(got)[:60], 'expected': expected}})
 
 
+def run_cmp_broadcast(u, out):
+    """polynomial operands of DIFFERENT shapes (NumPy broadcasting): all sign patterns of the element-wise differences of the
+    broadcast zeroth coefficients; higher coefficients are chosen so that they would decide every comparison the other way"""
+    opn = u['op']
+    op = OPS[opn]
+    for sa, sb in [((2,), ()), ((), (2,)), ((2, 1), (1, 2)), ((1, 2), (2,)), ((2,), (1,)), ((3,), ())]:
+        sr = np.broadcast_shapes(sa, sb)
+        size = int(np.prod(sr))
+        for pattern in itertools.product((-1, 0, 1), repeat=min(size, 3)):
+            for (D, P) in [(1, 1), (3, 1), (3, 2)]:
+                # y0 fixed per broadcast element is impossible in general: construct x0, y0 separately and read the pattern off
+                na, nb = int(np.prod(sa)) if sa else 1, int(np.prod(sb)) if sb else 1
+                X = np.zeros((D, P) + sa)
+                Y = np.zeros((D, P) + sb)
+                for p in range(P):
+                    pat = pattern if p == 0 else pattern[::-1]
+                    X[0, p] = (np.arange(na) * 0.75 - 0.5 + 0.25 * p).reshape(sa)
+                    Y[0, p] = (np.array([X[0, p].ravel()[k % na] - 0.5 * pat[k % len(pat)] for k in range(nb)])).reshape(sb)
+                if D > 1:
+                    X[1:] = -1e3 if opn in ('gt', 'ge') else 1e3        # would reverse the outcome if they were looked at
+                    Y[1:] = 1e3 if opn in ('gt', 'ge') else -1e3
+                x, y = UTPM(X.copy()), UTPM(Y.copy())
+                expected = bool(np.all([np.all(op(X[0, p], Y[0, p])) for p in range(P)]))
+                anyv = bool(np.any([np.any(op(X[0, p], Y[0, p])) for p in range(P)]))
+                if opn == 'ne' and expected != anyv:
+                    continue
+                if P > 1 and expected != anyv:
+                    continue            # mixed outcomes over directions: not judged (see the same-shape unit)
+                out['evals'] += 1
+                out['nontrivial'] += 1
+                case = {'kind': 'cmpb', 'op': opn, 'sa': list(sa), 'sb': list(sb), 'pattern': list(pattern), 'D': D, 'P': P}
+                try:
+                    gb = bool(op(x, y))
+                except Exception as ex:
+                    out['fails'].append({'sig': 'C10|cmp %s|broadcast|raises' % opn, 'case': case, 'detail': {'error': str(ex)[:160]}})
+                    continue
+                if gb != expected:
+                    out['fails'].append({'sig': 'C10|cmp %s|broadcast|%s' % (opn, 'D=1' if D == 1 else 'D>1'), 'case': case,
+                                         'detail': {'got': gb, 'expected': expected}})
+
+
 def run_unit(u):
     out = {'evals': 0, 'nontrivial': 0, 'fails': [], 'samples': [], 'counters': {}, 'lists': {}}
+    if u['kind'] == 'cmpb':
+        run_cmp_broadcast(u, out)
+        return out
     if u['kind'] == 'entries':
         for nm in u['names']:
             e = CAT.BY_NAME[nm]
@@ -303,6 +348,9 @@ def replay(case):
         check_entry(CAT.BY_NAME[case['name']], case['D'], case['P'], case.get('seed', 0), out)
     elif case['kind'] == 'plain':
         check_plain(CAT.BY_NAME[case['name']], case.get('seed', 0), out)
+    elif case['kind'] == 'cmpb':
+        run_cmp_broadcast(case, out)
+        out['fails'] = [f for f in out['fails'] if all(f['case'].get(k) == case.get(k) for k in ('sa', 'sb', 'pattern', 'D', 'P'))]
     elif case['kind'] == 'bcast':
         run_bcast(case, out)
         out['fails'] = [f for f in out['fails'] if all(f['case'].get(k) == case.get(k) for k in ('sa', 'sb', 'form'))]
